@@ -164,7 +164,7 @@ class World:
                 env=self.env,
             )
             # non-trivial tariffs
-            prices = immutables.Map({k: rng.choice([0.0, 0.13, 0.31, 1.7]) for k in kinds})
+            prices = immutables.Map({k: rng.choice([0.0, 0.13, 0.31, 1.7, -0.05]) for k in kinds})
             _, st = st.update_prices(prices)
             stations.append(st)
         bases = []
@@ -182,9 +182,10 @@ class World:
         vehicles = []
         for vid in self.vehicle_ids:
             mech = self.ice if (with_ice and rng.random() < 0.25) else self.bev
-            soc = rng.choice([1.0, rng.uniform(0.2, 0.95), rng.uniform(0.0005, 0.02), 0.0])
+            soc = rng.choice([1.0, rng.uniform(0.2, 0.95), rng.uniform(0.0005, 0.02), 0.0, rng.uniform(0.985, 0.9995)])
             if queue_scenario:
-                soc = rng.uniform(0.3, 0.9)
+                # (a few arrive nearly empty and may run dry while waiting)
+                soc = rng.uniform(0.3, 0.9) if rng.random() < 0.8 else rng.uniform(0.001, 0.006)
             if with_humans and rng.random() < 0.3:
                 attr = HumanDriverAttributes(vid, rng.choice(["sched_on", "sched_off"]), rng.choice(self.base_ids), rng.random() < 0.3)
                 driver = HumanAvailable(attr) if rng.random() < 0.6 else HumanUnavailable(attr)
